@@ -17,7 +17,8 @@ if ! (cd "$wt" && go build ./... 2>/dev/null); then echo "$patch | DOES-NOT-BUIL
 mkdir -p "$vd/bin"; cp -r /verif/harness /verif/known_findings.json "$vd/"; cp /verif/bin/symgo "$vd/bin/"
 res=""
 for p in "$@"; do
-  out=$(VERIF_REPO="$wt" VERIF_DIR="$vd" timeout ${TMO:-1500} "$vd/bin/symgo" check $p $tier ${EXTRA:-} 2>&1 | grep -E "^VIOLATION|^  harness=|held on everything|^INCONCLUSIVE|^VACUOUS|^KNOWN" | head -3 | tr '\n' ' ' | sed "s#$vd#/verif#g")
+  full=$(VERIF_REPO="$wt" VERIF_DIR="$vd" timeout ${TMO:-1500} "$vd/bin/symgo" check $p $tier ${EXTRA:-} 2>&1; echo "EXIT=$?")
+  out=$( (echo "$full" | grep -E "^VIOLATION" | head -2; echo "$full" | grep -E "^  harness=|held on everything|^INCONCLUSIVE|^VACUOUS|^KNOWN|panic|fatal|rror:|^EXIT=" | head -3) | tr '\n' ' ' | sed "s#$vd#/verif#g")
   [ -z "$out" ] && out="NO-VERDICT(timeout/crash)"
   res="$res | $p: $(echo $out | cut -c1-260)"
 done
